@@ -843,3 +843,62 @@ def z4(prog, tier="quick"):
             findings.append({"key": key, "where": "libzwerg/" + f["l"], "msg": "%s domain: %s (%d of %d values affected)" % (dom, other[0][1], len({b[0] for b in other}), len(values)), "detail": None})
     inst.append(("Z4:evaluations", {"n": n_eval}))
     return inst, findings
+
+
+def z5(prog):
+    """`value` (and therefore `%d`, which the scanner expands to it - N1) yields the same number in the decimal domain: op_value_cst::operate
+    interpreted from source on constants of abstract domains of every kind (arithmetic or not, `plain` or not - the DWARF address and
+    offset domains are plain but render in hex), several values incl. 0 and 2^64-1: the result has the value of the operand, the domain
+    dec_constant_dom, and is numbered 0."""
+    from cxxobj import CxxEvaluator, Obj, Sym, OutOfBounds
+    from absint import Thrown
+    inst, findings = [], []
+    f = prog.func_opt("op_value_cst::operate")
+    if f is None or f.get("body") is None:
+        raise Broken("anchor op_value_cst::operate vanished")
+    sign = {c["n"]: ("enum", c["n"], c["v"]) for e in prog.enums.values() if e["q"] == "signedness" for c in e["consts"]}
+    if set(sign) < {"sign", "unsign"}:
+        raise Broken("enum signedness vanished")
+
+    class D:
+        def __init__(self, name, arith, plain):
+            self.name, self.arith, self.plain = name, arith, plain
+            self.addr = id(self)
+
+        def __repr__(self):
+            return self.name
+    DEC = D("dec_constant_dom", True, True)
+    doms = [DEC, D("hex literal domain", True, False), D("Dwarf_Address (plain, renders in hex)", True, True), D("DW_TAG_ (named)", False, False),
+            D("plain non-arithmetic", False, True)]
+    hooks = {
+        "zw_cdom::plain": lambda ev, o, a: o.plain, "constant_dom::plain": lambda ev, o, a: o.plain,
+        "zw_cdom::safe_arith": lambda ev, o, a: o.arith, "constant_dom::safe_arith": lambda ev, o, a: o.arith,
+    }
+    ev = CxxEvaluator(hooks, {"dec_constant_dom": DEC}, prog=prog)
+    brev = {c["n"]: ("enum", c["n"], c["v"]) for e in prog.enums.values() if e["q"] == "brevity" for c in e["consts"]}
+    key = "Z5:value"
+    bad = None
+    n = 0
+    for d in doms:
+        for v in (0, 1, 0x4004b2, (1 << 64) - 1):
+            c = Obj("constant")
+            m = Obj("mpz_class")
+            m.m_u, m.m_i, m.m_sign = v, v if v < (1 << 63) else v - (1 << 64), sign["unsign"]
+            c.m_value, c.m_dom, c.m_brv = m, d, brev.get("full")
+            a = Obj("value_cst")
+            a.m_cst, a.m_pos = c, 5
+            try:
+                r = ev.call(f, Obj("op_value_cst"), [a])
+            except (OutOfBounds, Thrown) as x:
+                raise Broken("op_value_cst::operate cannot be evaluated: %s" % x)
+            n += 1
+            rc = getattr(r, "m_cst", None)
+            rv = getattr(getattr(rc, "m_value", None), "m_u", None)
+            rd = getattr(rc, "m_dom", None)
+            if (rv != v or rd is not DEC or getattr(r, "m_pos", None) != 0) and bad is None:
+                bad = "`value` of %d in the domain %r yields %s in the domain %r numbered %s; expected %d in the decimal domain numbered 0" % (v, d, rv, rd, getattr(r, "m_pos", None), v)
+    inst.append((key, {"evaluations": n}))
+    if bad:
+        findings.append({"key": key, "where": "libzwerg/" + f["l"],
+                         "msg": bad + " (`%d` is `%( value %)`: the text would not be a decimal literal that reads back as an equal constant of the decimal domain)", "detail": None})
+    return inst, findings
